@@ -24,6 +24,7 @@ EXPLANATION = (
     "(dict(a, **b) order) and Context.transform passes the context's defaults; Relation.transformation evaluates the "
     "equation with value=...; _redefine rejects unknown, prefixed and base units and dimension changes before define. "
     "Does not evaluate any rule equation or decide numeric results.")
+EXPLANATION += ' Also decided (rules added after the second round of seeded changes): the parameterised copy made by Context.from_context carries every field __init__ creates (except the triaged per-object `checked` flag); a stored overlay is never reused without rebuild.'
 
 
 
